@@ -37,9 +37,11 @@ type scanner struct {
 	// curRegionScannerID is the id of scanner on current region
 	curRegionScannerID uint64
 	// startRow is the start row in the current region
-	startRow    []byte
-	results     []*pb.Result
-	closed      bool
+	startRow []byte
+	results  []*pb.Result
+	closed   bool
+	// failed is set once Next has returned an error other than io.EOF
+	failed      bool
 	scanMetrics map[string]int64
 
 	logger      *slog.Logger
@@ -165,6 +167,19 @@ func toLocalResult(r *pb.Result) *hrpc.Result {
 }
 
 func (s *scanner) Next() (*hrpc.Result, error) {
+	if s.failed {
+		// an error (or the context cancellation) has already been
+		// reported by a previous call, from now on it's end of scan
+		return nil, io.EOF
+	}
+	res, err := s.next()
+	if err != nil && err != io.EOF {
+		s.failed = true
+	}
+	return res, err
+}
+
+func (s *scanner) next() (*hrpc.Result, error) {
 	var (
 		result, partial *pb.Result
 		err             error
